@@ -841,7 +841,8 @@ class TimedStore(typing.Generic[KT]):
             )
             return
 
-        asyncio.get_event_loop().call_soon(callback, entry, address)
+        # called immediately, see stop()
+        callback(entry, address)
 
     def entries(self) -> typing.Iterator[KT]:
         return itertools.chain.from_iterable(x.keys() for x in self.store.values())
